@@ -244,7 +244,10 @@ pub fn generate(seed: u64, class: &str) -> Scenario {
         docs = vec![J::Obj(vec![("ys".into(), J::Arr(ys))]).to_json(), J::Obj(vec![("ys".into(), J::Arr(zs))]).to_json()];
     }
     let nthreads = if pool { 3 + r.below(2) } else if deep { 5 } else if hot || shared { 4 } else if crowd { 20 } else if bigsort { 3 } else if manytexts { 2 } else { 2 + r.below(3) };
-    let mut pool_texts: Vec<String> = (0..3).map(|_| gen_text(&mut r, &base, false)).collect();
+    let mut pool_texts: Vec<String> = vec!["a".to_string(), "s".to_string(), String::new()];
+    if !pool {
+        pool_texts = (0..3).map(|_| gen_text(&mut r, &base, false)).collect();
+    }
     // one of the pooled texts carries a literal of about 330 bytes: every compile makes
     // (or shares) it and every finished operation drops it, on several threads at once
     pool_texts[2] = format!(
@@ -329,9 +332,11 @@ pub fn generate(seed: u64, class: &str) -> Scenario {
             }
         }
         if pool {
-            for _ in 0..(10 + r.below(6)) {
+            // many cheap compiles of the same few texts (the long-literal one now and then)
+            for _ in 0..(20 + r.below(6)) {
                 let d = r.below(docs.len());
-                ops.push(Op::CompileSearch { text: r.pick(&pool_texts).clone(), d });
+                let text = if r.chance(1, 7) { pool_texts[2].clone() } else { pool_texts[r.below(2)].clone() };
+                ops.push(Op::CompileSearch { text, d });
             }
         }
         if !(race || late || pool || deep || hot || shared || crowd || bigsort || manytexts) {
